@@ -163,6 +163,8 @@ type scriptTracker struct {
 		ok   bool
 	}
 	viol []*simcheck.Violation
+	// cluster: name of the cluster when the run is in clustered mode
+	cluster string
 }
 
 func newTracker() *scriptTracker {
@@ -197,6 +199,17 @@ func (tr *scriptTracker) addViol(oracle, sig, detail string) {
 
 // onApply is called for every statement the database applied.
 func (tr *scriptTracker) onApply(st *ddl.Stmt) {
+	if tr.cluster != "" {
+		// a schema statement without ON CLUSTER changes the node the process happens to be connected to and no other:
+		// the nodes of the cluster end up with different schemas, although every statement succeeds
+		switch st.Class {
+		case "create-table", "create-view", "drop", "rename", "alter":
+			if !strings.Contains(strings.ToUpper(st.SQL), "ON CLUSTER") {
+				tr.addViol("schema-statement-on-one-node-only", fmt.Sprintf("clustered mode, no ON CLUSTER: %.70s", st.SQL),
+					"in clustered mode the statement "+st.SQL+" carries no ON CLUSTER clause: it is applied on one node only")
+			}
+		}
+	}
 	switch st.Class {
 	case "insert-ver":
 		k, _ := st.Args[0].(int64)
@@ -299,6 +312,7 @@ func referenceRun(cfg Cfg) (*ddl.State, []ddl.Stmt, *scriptTracker, error) {
 	st := ddl.NewState()
 	var log []ddl.Stmt
 	tr := newTracker()
+	tr.cluster = cfg.Cluster
 	err, crashed, _ := runUpdate(st, 0, &log, nil, cfg, tr.onApply)
 	if crashed {
 		return st, log, tr, fmt.Errorf("crash without fault")
@@ -351,6 +365,7 @@ func RunC18(s C18Scenario) *simcheck.RunInfo {
 	st := ddl.NewState()
 	var log []ddl.Stmt
 	tr := newTracker()
+	tr.cluster = s.Cfg.Cluster
 	cfg := s.Cfg
 	proc := 0
 	var fired []string
